@@ -18,6 +18,17 @@ def triggers(ad, style):
     """features of a case, in a fixed priority order, that are known to matter to the reader / writer; the first one present is
     appended to the site of a failure so that different causes get different keys ('plain' when none is present)"""
     t = []
+    if ad['conns']:
+        ports = set(p['name'] for p in ad['ports'])
+        if style['conn_pos'] != 'end':
+            t.append('conn-early')
+        if len(ad['conns']) > 1:
+            t.append('conn-several')
+        if any(x[1] is not None for c in ad['conns'] for x in c):
+            t.append('conn-bus')
+        if any(x[0] in ports for c in ad['conns'] for x in c):
+            t.append('conn-port')
+        t.append('conn')
     if style['comments'] == 'after-model':
         t.append('comment-after-model')
     if style['io'] == 'outputs-first':
@@ -32,17 +43,6 @@ def triggers(ad, style):
         t.append('latch-short-first')
     if style['comments'] == 'inner':
         t.append('comment-inner')
-    if ad['conns']:
-        ports = set(p['name'] for p in ad['ports'])
-        if style['conn_pos'] != 'end':
-            t.append('conn-early')
-        if len(ad['conns']) > 1:
-            t.append('conn-several')
-        if any(x[1] is not None for c in ad['conns'] for x in c):
-            t.append('conn-bus')
-        if any(x[0] in ports for c in ad['conns'] for x in c):
-            t.append('conn-port')
-        t.append('conn')
     sub = [i for i in ad['instances'] if i['kind'] in ('subckt', 'gate')]
     if any(not i['cname'] and sum(1 for j in sub if j['model'] == i['model']) > 1 for i in sub):
         t.append('uncnamed-siblings')          # an instance that keeps a default name <model>_instance_<k> beside another of its model
